@@ -126,6 +126,11 @@ def pattern_heights(h, n, pattern, T):
     if pattern.startswith('halves'):
         d = float(pattern[len('halves'):] or 400)
         return [h + (0.0, 10.0, -10.0)[i % 3] + (d if i >= n // 2 else 0.0) for i in range(n)]
+    if pattern.startswith('modes'):
+        # 'modes:d1:d2' -> three interleaved modes at h, h+d1, h+d1+d2 (+-8 ft jitter)
+        _, d1, d2 = pattern.split(':')
+        offs = (0.0, float(d1), float(d1) + float(d2))
+        return [h + offs[i % 3] + (0.0, 8.0, -8.0)[(i // 3) % 3] for i in range(n)]
     raise ValueError(pattern)
 
 
@@ -219,6 +224,35 @@ ID_ALLOC_PRMS = {'SLICING_PRMS': {'distance_threshold': 1e-6}, 'BASE_LVL_HEIGHT_
                  'MIN_SEP_VALS': [250], 'MIN_SEP_LIMS': [], 'MAX_HITS_OKTA0': 0}
 
 
+def _lcg(seed):
+    x = seed
+    while True:
+        x = (x * 1103515245 + 12345) % (2 ** 31)
+        yield x / 2 ** 31
+
+
+def lcg_deck_scene(n, k, d, amp, seed):
+    """A compact deck near 1900 ft quantised to 10 ft (own LCG, no RNG), k stray hits d ft above it and
+    ten second/third hits at 9000 ft. Found by exhaustive search (scratch/find119c.py) over 5760 such
+    scenes: the ones listed in W119 make one of the mixture fits leave a component unpopulated (#119)."""
+    g = _lcg(seed)
+    rows = []
+    T = n
+    strays = set(int(round(i * (T - 1) / max(k - 1, 1))) for i in range(k)) if k > 1 else {T // 2}
+    for t in range(T):
+        dt = -15. * (T - 1 - t)
+        hs = [1900. + 10 * round(amp / 10 * (next(g) + next(g) + next(g) - 1.5))]
+        if t in strays:
+            hs = [1900. + d + 10 * round(2 * (next(g) - 0.5))]
+        if t < 10:
+            hs.append(9000.)
+        rows += typed_rows('a', dt, [round(h, 1) for h in hs])
+    return rows
+
+
+W119 = [(40, 1, 300, 30, 11), (40, 3, 250, 30, 28), (60, 2, 250, 30, 29), (60, 2, 350, 30, 29), (40, 3, 350, 30, 28)]
+
+
 def build(spec):
     """Resolve a scene spec to rows."""
     if isinstance(spec, list):
@@ -239,6 +273,8 @@ def build(spec):
         return reorder(rows, spec['order']) if spec.get('order') else rows
     if g == 'idalloc':
         return id_alloc_scene(spec['S'], spec.get('pos', 0))
+    if g == 'lcgdeck':
+        return lcg_deck_scene(*spec['args'])
     if g == 'demo':
         from ampycloud.utils import mocker
         return rows_of(mocker.canonical_demo_data())
